@@ -203,6 +203,9 @@ func (w *world) one(k kase, r *engine.Report) (string, string) {
 		case k.Mut == "sig-by-other-key":
 			m.BundleSignature = w.k2.Sign(m.Bundle)
 		}
+		// the genuine request is processed first (an ordinary poll): state kept
+		// across calls must not let the altered one ride on it
+		w.call(k.Mode, req)
 		proceeded, _, calls, writes, err, pm := w.call(k.Mode, m)
 		if pm != "" {
 			return "panic:mutate", fmt.Sprintf("[%s] %s: panic: %s", k.Mode, k.Mut, pm)
